@@ -136,8 +136,9 @@ func (c *Conn) loop(ctx context.Context) {
 				if err != nil {
 					log.Println(err)
 				}
-				ok := n >= 0
-				if n < 0 {
+				// a failed delivery (e.g. the hub was closed while the handler ran) is not an answer
+				ok := err == nil && n >= 0
+				if !ok {
 					n = 0
 				}
 				if err := req.Reply(ok, resp[:n]); err != nil {
